@@ -28,6 +28,7 @@ type tool struct {
 	notes    map[string]bool
 	handlers map[string]bool // keys of registered handler functions
 	edges    map[string]map[string]bool // caller key|role -> callee keys
+	muAlias  map[string]bool            // *sync.Mutex fields proved to point to Muxer.mutex
 }
 
 func (t *tool) note(format string, a ...interface{}) {
